@@ -12,10 +12,10 @@ Local Open Scope N_scope.
 Ltac Zify.zify_post_hook ::= Z.div_mod_to_equations.
 
 (* the decoder state with the components a field loop can change replaced *)
-Definition st_upd (s : dstate) (ts lo : N) (uf : list (N * N * N)) (q : list N) : dstate :=
-  mk_dstate (ds_defs s) ts lo uf (ds_unkm s) (ds_file s) (ds_g s) q.
+Definition st_upd (s : dstate) (hs : bool) (ts lo : N) (uf : list (N * N * N)) : dstate :=
+  mk_dstate (ds_defs s) ts lo uf (ds_unkm s) (ds_file s) (ds_g s) (ds_quirks s) hs.
 
-Lemma st_upd_id s : st_upd s (ds_ts s) (ds_lastoff s) (ds_unkf s) (ds_quirks s) = s.
+Lemma st_upd_id s : st_upd s (ds_hasts s) (ds_ts s) (ds_lastoff s) (ds_unkf s) = s.
 Proof. destruct s; reflexivity. Qed.
 Lemma st_upd_upd s a b c d a' b' c' d' : st_upd (st_upd s a b c d) a' b' c' d' = st_upd s a' b' c' d'.
 Proof. reflexivity. Qed.
@@ -42,28 +42,6 @@ Lemma denote_fields_cons be gmn f r pay m ref unl :
   let '(m', ref', unl') := dstep be gmn f (firstn (N.to_nat (sf_size f)) pay) m ref unl in
   denote_fields be gmn r (skipn (N.to_nat (sf_size f)) pay) m' ref' unl'.
 Proof. cbn [denote_fields]. unfold dstep. destruct (get_field gmn (sf_num f)); reflexivity. Qed.
-
-Definition field_ok (be : bool) (gmn : N) (f : sfdef) (bytes : list N) (ref : option N) : bool :=
-  match get_field gmn (sf_num f) with
-  | None => true
-  | Some p =>
-      let u := wire_unsigned be bytes in
-      let k := fit_kind (pf_t p) in
-      if k =? kind_timeutc then negb ((sf_num f =? c_fieldNumTimeStamp) && (u =? 0))
-      else if k =? kind_timelocal then
-        (u =? 0xFFFFFFFF) || match ref with Some r0 => c_systemTimeMarker <=? r0 | None => false end
-      else true
-  end.
-
-Lemma fields_time_ok_cons be gmn f r pay ref :
-  fields_time_ok be gmn (f :: r) pay ref =
-  field_ok be gmn f (firstn (N.to_nat (sf_size f)) pay) ref &&
-  fields_time_ok be gmn r (skipn (N.to_nat (sf_size f)) pay)
-    (snd (fst (dstep be gmn f (firstn (N.to_nat (sf_size f)) pay) (mk_msg 0 []) ref []))).
-Proof.
-  cbn [fields_time_ok]. unfold field_ok, dstep. destruct (get_field gmn (sf_num f)) as [p|]; [|reflexivity].
-  cbn [fst snd]. reflexivity.
-Qed.
 
 Lemma dstep_ref_indep be gmn f bytes m m' ref unl unl' :
   snd (fst (dstep be gmn f bytes m ref unl)) = snd (fst (dstep be gmn f bytes m' ref unl')).
@@ -147,7 +125,7 @@ Lemma pts_utc s u num : u <> 0xFFFFFFFF ->
   (Some (time_of u),
    if num =? c_fieldNumTimeStamp then
      mk_dstate (ds_defs s) u (N.land u c_compressedTimeMask) (ds_unkf s) (ds_unkm s) (ds_file s) (ds_g s)
-               (if u =? 0 then Q_TS_ZERO :: ds_quirks s else ds_quirks s)
+               (ds_quirks s) true
    else s).
 Proof.
   intros Hu. unfold parse_time_stamp. destruct (N.eqb_spec u 0xFFFFFFFF); [contradiction|].
@@ -171,20 +149,19 @@ Lemma field_body_spec be gmn dm f p m buf ref unl x s :
   get_field gmn (sf_num f) = Some p -> compat gmn f = true -> canon_bt f = true ->
   dm_gmn dm = gmn -> dm_be dm = be ->
   List.length buf = N.to_nat (sf_size f) -> all_bytes buf = true ->
-  time_rel (ds_ts s) (ds_lastoff s) ref -> field_ok be gmn f buf ref = true ->
-  exists ts' lo' q',
+  time_rel (ds_hasts s) (ds_ts s) (ds_lastoff s) ref ->
+  exists hs' ts' lo',
     run_a (field_body dm (to_fdef f) p m (gotype_of_fit (pf_t p)) buf) x s =
-      ROk (Some (fst (fst (dstep be gmn f buf m ref unl)))) x (st_upd s ts' lo' (ds_unkf s) q') /\
-    time_rel ts' lo' (snd (fst (dstep be gmn f buf m ref unl))).
+      ROk (Some (fst (fst (dstep be gmn f buf m ref unl)))) x (st_upd s hs' ts' lo' (ds_unkf s)) /\
+    time_rel hs' ts' lo' (snd (fst (dstep be gmn f buf m ref unl))).
 Proof.
-  intros Hg Hc Hcan Hgmn Hbe Hlen Hbytes Htime Hok.
+  intros Hg Hc Hcan Hgmn Hbe Hlen Hbytes Htime.
   destruct (entry_sound _ _ _ Hg) as (md & Em & F).
   unfold dstep. rewrite Hg. cbn [fst snd]. rewrite (ef_type _ _ _ _ F).
-  unfold field_ok in Hok. rewrite Hg in Hok.
   destruct (compat_listed gmn f p Hc (ef_known _ _ _ _ F) Hg) as [Hkn Hcase].
   destruct (kind_cases _ (ef_kind _ _ _ _ F)) as [Hk|[Hk|[Hk|[Hk|Hk]]]].
   - (* native *)
-    exists (ds_ts s), (ds_lastoff s), (ds_quirks s). rewrite st_upd_id.
+    exists (ds_hasts s), (ds_ts s), (ds_lastoff s). rewrite st_upd_id.
     unfold field_body. rewrite Hk. change (kind_native =? kind_native) with true. cbv iota.
     change (kind_native =? kind_timeutc) with false. rewrite andb_false_r.
     split; [|exact Htime].
@@ -203,19 +180,18 @@ Proof.
     unfold get_st. cbn [bind]. rewrite run_get. rewrite (ef_num _ _ _ _ F).
     unfold denote_field. rewrite Hk.
     change (kind_timeutc =? kind_native) with false. change (kind_timeutc =? kind_timeutc) with true. cbv iota.
-    rewrite Hk in Hok. change (kind_timeutc =? kind_timeutc) with true in Hok. cbv iota in Hok.
     rewrite andb_true_r.
     destruct (N.eqb_spec (wire_unsigned be buf) 0xFFFFFFFF) as [Einv|Ninv].
     + rewrite Einv. rewrite invalid_time_untouched. cbv iota beta. unfold put_st. cbn [bind]. rewrite run_put.
-      exists (ds_ts s), (ds_lastoff s), (ds_quirks s). rewrite st_upd_id.
+      exists (ds_hasts s), (ds_ts s), (ds_lastoff s). rewrite st_upd_id.
       split; [reflexivity|]. destruct (sf_num f =? c_fieldNumTimeStamp); exact Htime.
     + rewrite (pts_utc s _ _ Ninv). cbv iota beta. unfold put_st. cbn [bind]. rewrite run_put.
       cbn [of_set set_time]. cbn [run_a].
       destruct (sf_num f =? c_fieldNumTimeStamp) eqn:E253.
-      * eexists _, _, _. split; [reflexivity|]. cbn [time_rel].
-        cbn [andb negb] in Hok. apply negb_true_iff, N.eqb_neq in Hok.
-        split; [reflexivity|]. split; [assumption|]. apply explicit_timestamp_invariant.
-      * exists (ds_ts s), (ds_lastoff s), (ds_quirks s). rewrite st_upd_id. split; [reflexivity|exact Htime].
+      * exists true, (wire_unsigned be buf), (N.land (wire_unsigned be buf) c_compressedTimeMask).
+        split; [reflexivity|]. cbn [time_rel].
+        split; [reflexivity|]. split; [reflexivity|]. apply explicit_timestamp_invariant.
+      * exists (ds_hasts s), (ds_ts s), (ds_lastoff s). rewrite st_upd_id. split; [reflexivity|exact Htime].
   - (* local_date_time *)
     assert (Ha : fit_array (pf_t p) = false) by (apply (ef_scalar_kinds _ _ _ _ F); rewrite Hk; discriminate).
     pose proof (ef_time_base _ _ _ _ F (or_intror Hk)) as Hpb.
@@ -230,15 +206,20 @@ Proof.
     unfold denote_field. rewrite Hk.
     change (kind_timelocal =? kind_native) with false. change (kind_timelocal =? kind_timeutc) with false.
     change (kind_timelocal =? kind_timelocal) with true. cbv iota.
-    rewrite Hk in Hok. change (kind_timelocal =? kind_timeutc) with false in Hok. change (kind_timelocal =? kind_timelocal) with true in Hok.
-    cbv iota in Hok. rewrite andb_false_r.
-    exists (ds_ts s), (ds_lastoff s), (ds_quirks s). rewrite st_upd_id. split; [|exact Htime].
+    rewrite andb_false_r.
+    exists (ds_hasts s), (ds_ts s), (ds_lastoff s). rewrite st_upd_id. split; [|exact Htime].
     destruct (N.eqb_spec (wire_unsigned be buf) 0xFFFFFFFF) as [Einv|Ninv].
     + rewrite Einv. rewrite invalid_time_untouched. cbv iota beta. unfold put_st. cbn [bind]. rewrite run_put. reflexivity.
-    + cbn [orb] in Hok. destruct ref as [r0|]; [|discriminate]. apply N.leb_le in Hok.
-      destruct Htime as (Hts & Hr0 & Hlo).
-      rewrite (local_time_with_reference s _ _ Ninv) by (rewrite Hts; exact Hok).
-      cbv iota beta. unfold put_st. cbn [bind]. rewrite run_put. rewrite Hts. reflexivity.
+    + unfold local_time_of. destruct ref as [r0|].
+      * destruct Htime as (Hh & Hts & Hlo).
+        destruct (N.ltb_spec r0 c_systemTimeMarker) as [Hlt|Hge].
+        -- rewrite (local_time_without_reference s _ _ Ninv) by (right; rewrite Hts; exact Hlt).
+           cbv iota beta. unfold put_st. cbn [bind]. rewrite run_put. reflexivity.
+        -- rewrite (local_time_with_reference s _ _ Ninv Hh) by (rewrite Hts; exact Hge).
+           cbv iota beta. unfold put_st. cbn [bind]. rewrite run_put. rewrite Hts. reflexivity.
+      * cbn [time_rel] in Htime.
+        rewrite (local_time_without_reference s _ _ Ninv) by (left; exact Htime).
+        cbv iota beta. unfold put_st. cbn [bind]. rewrite run_put. reflexivity.
   - (* latitude *)
     assert (Ha : fit_array (pf_t p) = false) by (apply (ef_scalar_kinds _ _ _ _ F); rewrite Hk; discriminate).
     pose proof (ef_coord_base _ _ _ _ F (or_introl Hk)) as Hpb.
@@ -254,7 +235,7 @@ Proof.
     change (kind_lat =? kind_native) with false. change (kind_lat =? kind_timeutc) with false.
     change (kind_lat =? kind_timelocal) with false. change (kind_lat =? kind_lat) with true. cbv iota.
     rewrite andb_false_r.
-    exists (ds_ts s), (ds_lastoff s), (ds_quirks s). rewrite st_upd_id. split; [reflexivity|exact Htime].
+    exists (ds_hasts s), (ds_ts s), (ds_lastoff s). rewrite st_upd_id. split; [reflexivity|exact Htime].
   - (* longitude *)
     assert (Ha : fit_array (pf_t p) = false) by (apply (ef_scalar_kinds _ _ _ _ F); rewrite Hk; discriminate).
     pose proof (ef_coord_base _ _ _ _ F (or_intror Hk)) as Hpb.
@@ -271,7 +252,7 @@ Proof.
     change (kind_lng =? kind_timelocal) with false. change (kind_lng =? kind_lat) with false.
     change (kind_lng =? kind_lng) with true. cbv iota.
     rewrite andb_false_r.
-    exists (ds_ts s), (ds_lastoff s), (ds_quirks s). rewrite st_upd_id. split; [reflexivity|exact Htime].
+    exists (ds_hasts s), (ds_ts s), (ds_lastoff s). rewrite st_upd_id. split; [reflexivity|exact Htime].
 Qed.
 
 (* ------------------------------------------------------------ the field loop *)
@@ -294,20 +275,20 @@ Lemma fields_known o dm be gmn base : known_msg gmn = true -> dm_gmn dm = gmn ->
   forall fds pay m ref unl s tl t n lim,
   forallb (compat gmn) fds = true -> forallb canon_bt fds = true ->
   List.length pay = psize fds -> all_bytes pay = true ->
-  time_rel (ds_ts s) (ds_lastoff s) ref -> fields_time_ok be gmn fds pay ref = true ->
+  time_rel (ds_hasts s) (ds_ts s) (ds_lastoff s) ref ->
   (o_unkf o = true -> ds_unkf s = counts gmn unl base) ->
   (n + List.length pay <= lim)%nat ->
-  exists ts' lo' uf' q',
+  exists hs' ts' lo' uf',
     run_a (parse_fields o dm true (map to_fdef fds) (Some m)) (ast_at pay tl t n lim) s =
       ROk (Some (fst (fst (denote_fields be gmn fds pay m ref unl)))) (ast_at [] tl t (n + List.length pay) lim)
-          (st_upd s ts' lo' uf' q') /\
-    time_rel ts' lo' (snd (fst (denote_fields be gmn fds pay m ref unl))) /\
+          (st_upd s hs' ts' lo' uf') /\
+    time_rel hs' ts' lo' (snd (fst (denote_fields be gmn fds pay m ref unl))) /\
     (o_unkf o = true -> uf' = counts gmn (snd (denote_fields be gmn fds pay m ref unl)) base) /\
     (o_unkf o = false -> uf' = ds_unkf s).
 Proof.
-  intros Hkn Hgmn Hbe. induction fds as [|f r IH]; intros pay m ref unl s tl t n lim Hc Hcan Hlen Hbytes Htime Hok Hunk Hlim.
+  intros Hkn Hgmn Hbe. induction fds as [|f r IH]; intros pay m ref unl s tl t n lim Hc Hcan Hlen Hbytes Htime Hunk Hlim.
   - cbn [psize fold_right] in Hlen. destruct pay; [|discriminate]. cbn [map parse_fields denote_fields fst snd List.length run_a].
-    rewrite Nat.add_0_r. exists (ds_ts s), (ds_lastoff s), (ds_unkf s), (ds_quirks s). rewrite st_upd_id.
+    rewrite Nat.add_0_r. exists (ds_hasts s), (ds_ts s), (ds_lastoff s), (ds_unkf s). rewrite st_upd_id.
     repeat split; auto.
   - cbn [forallb] in Hc, Hcan. apply andb_prop in Hc. destruct Hc as [Hc1 Hc]. apply andb_prop in Hcan. destruct Hcan as [Hcan1 Hcan].
     cbn [psize fold_right] in Hlen. fold (psize r) in Hlen.
@@ -315,10 +296,8 @@ Proof.
     assert (Hb1 : List.length (firstn sz pay) = sz) by (rewrite firstn_length; lia).
     assert (Hb2 : List.length (skipn sz pay) = psize r) by (rewrite skipn_length; lia).
     destruct (all_bytes_split sz pay Hbytes) as [Hby1 Hby2].
-    rewrite fields_time_ok_cons in Hok. fold sz in Hok. apply andb_prop in Hok. destruct Hok as [Hok1 Hok2].
     rewrite denote_fields_cons. fold sz.
-    rewrite (dstep_ref_indep be gmn f (firstn sz pay) (mk_msg 0 []) m ref [] unl) in Hok2.
-    destruct (dstep be gmn f (firstn sz pay) m ref unl) as [[m1 ref1] unl1] eqn:Eds. cbn [fst snd] in Hok2.
+    destruct (dstep be gmn f (firstn sz pay) m ref unl) as [[m1 ref1] unl1] eqn:Eds.
     cbn [map parse_fields]. rewrite run_bind.
     replace (ast_at pay tl t n lim) with (ast_at (firstn sz pay ++ skipn sz pay) tl t n lim) by (now rewrite firstn_skipn).
     assert (Hlen' : (List.length pay = sz + List.length (skipn sz pay))%nat) by lia.
@@ -328,14 +307,13 @@ Proof.
       destruct (field_body_spec be gmn dm f p m (firstn sz pay) ref unl
                   (ast_at (skipn sz pay) tl t (n + List.length (firstn sz pay)) lim) s
                   Eg Hc1 Hcan1 Hgmn Hbe Hb1 Hby1 Htime)
-        as (ts1 & lo1 & q1 & Hrun & Htime1).
-      { unfold field_ok. rewrite Eg. unfold field_ok in Hok1. rewrite Eg in Hok1. exact Hok1. }
+        as (hs1 & ts1 & lo1 & Hrun & Htime1).
       rewrite Hrun. rewrite Eds in Htime1. cbn [fst snd] in Htime1. rewrite Eds. cbn [fst snd rbind].
       assert (Eunl : unl1 = unl) by (unfold dstep in Eds; rewrite Eg in Eds; now inversion Eds). subst unl1.
-      destruct (IH (skipn sz pay) m1 ref1 unl (st_upd s ts1 lo1 (ds_unkf s) q1) tl t (n + List.length (firstn sz pay))%nat lim
-                  Hc Hcan Hb2 Hby2 Htime1 Hok2 Hunk ltac:(lia))
-        as (ts' & lo' & uf' & q' & Hrun' & Ht' & Hu1 & Hu2).
-      exists ts', lo', uf', q'. rewrite Hrun'. rewrite st_upd_upd.
+      destruct (IH (skipn sz pay) m1 ref1 unl (st_upd s hs1 ts1 lo1 (ds_unkf s)) tl t (n + List.length (firstn sz pay))%nat lim
+                  Hc Hcan Hb2 Hby2 Htime1 Hunk ltac:(lia))
+        as (hs' & ts' & lo' & uf' & Hrun' & Ht' & Hu1 & Hu2).
+      exists hs', ts', lo', uf'. rewrite Hrun'. rewrite st_upd_upd.
       replace (n + List.length (firstn sz pay) + List.length (skipn sz pay))%nat with (n + List.length pay)%nat by lia.
       repeat split; auto.
     + rewrite (pof_unlisted o dm true (to_fdef f) (Some m) (firstn sz pay) (skipn sz pay))
@@ -343,16 +321,16 @@ Proof.
       cbn [rbind andb]. unfold dstep in Eds. rewrite Eg in Eds. inversion Eds; subst m1 ref1 unl1. clear Eds.
       cbn [to_fdef fd_num]. rewrite Hgmn, bump2_count2.
       set (s1 := if o_unkf o then with_unkf s (count2 gmn (sf_num f) (ds_unkf s)) else s).
-      assert (Es1 : s1 = st_upd s (ds_ts s) (ds_lastoff s) (if o_unkf o then count2 gmn (sf_num f) (ds_unkf s) else ds_unkf s) (ds_quirks s)).
+      assert (Es1 : s1 = st_upd s (ds_hasts s) (ds_ts s) (ds_lastoff s) (if o_unkf o then count2 gmn (sf_num f) (ds_unkf s) else ds_unkf s)).
       { unfold s1. destruct (o_unkf o); [reflexivity|now rewrite st_upd_id]. }
       rewrite Es1.
       destruct (IH (skipn sz pay) m ref (unl ++ [sf_num f])
-                  (st_upd s (ds_ts s) (ds_lastoff s) (if o_unkf o then count2 gmn (sf_num f) (ds_unkf s) else ds_unkf s) (ds_quirks s))
-                  tl t (n + List.length (firstn sz pay))%nat lim Hc Hcan Hb2 Hby2 Htime Hok2)
-        as (ts' & lo' & uf' & q' & Hrun' & Ht' & Hu1 & Hu2).
+                  (st_upd s (ds_hasts s) (ds_ts s) (ds_lastoff s) (if o_unkf o then count2 gmn (sf_num f) (ds_unkf s) else ds_unkf s))
+                  tl t (n + List.length (firstn sz pay))%nat lim Hc Hcan Hb2 Hby2 Htime)
+        as (hs' & ts' & lo' & uf' & Hrun' & Ht' & Hu1 & Hu2).
       { intros Ho. cbn [st_upd ds_unkf]. rewrite Ho. rewrite counts_snoc. now rewrite (Hunk Ho). }
       { lia. }
-      exists ts', lo', uf', q'. rewrite Hrun'. rewrite st_upd_upd.
+      exists hs', ts', lo', uf'. rewrite Hrun'. rewrite st_upd_upd.
       replace (n + List.length (firstn sz pay) + List.length (skipn sz pay))%nat with (n + List.length pay)%nat by lia.
       repeat split; auto.
       intros Ho. rewrite (Hu2 Ho). cbn [st_upd ds_unkf]. now rewrite Ho.
